@@ -97,6 +97,9 @@ def c02(tier):
     sweep_check(chk, "arr-quick", sets.arr_set('quick'), 'put', prof, full_w=8)
     sweep_check(chk, "nc-quick", sets.nc_set('quick'), 'put', prof, full_w=8)
     chk.bounds.append("plus the quick ARR/ARRB/ARRBOOL and NC/NCARR/NCB families of C03/C04 (with_/set_ only)")
+    acc = optional_accepted(chk, 'quick')
+    if acc:
+        sweep_check(chk, "optional-quick", acc, 'put', prof, full_w=8)
     return chk.finish()
 
 
@@ -406,6 +409,9 @@ def c12(tier):
     rep = B.run(ws, prof, 'sweep', ['--ops', 'all', '--full-n', 16, '--full-w', 8 if tier == 'quick' else 16, '--oob', 1], out_name=f"report-C12-sweep-{prof}.json")
     chk.add_report(rep, f"sweep:mix:{prof}")
     closed_sweep = rep.get('violation_count', 0) == 0 and rep.get('exhaustive')
+    acc = optional_accepted(chk, 'quick')
+    if acc:
+        sweep_check(chk, "optional-quick", acc, 'all', prof, full_w=8)
     P = "no_panic,raw_is_shadow,getters_are_shadow"
     rep2, pm = product_run_named(chk, ws, prof, [s.name for s in structs if s.n <= 12], depth=0, values='full', full_n=12, label="fixedpoint", props=P)
     # cross-check of the two engines on N<=12: both must have seen exactly 2^N states per machine
